@@ -105,15 +105,14 @@ Qed.
 Section Shape.
   Variable E : env.
   Variable fmt_f64 fmt_f32 : Z -> list N.
-  Variable lossy : list N -> Z.
 
   (* the spelling of a finite double denotes its value: the exact integer when it is
-     integer-spelled, otherwise it reads (lossy) as that double *)
+     integer-spelled, otherwise it reads (correctly rounded) as that double *)
   Hypothesis Hk64 : forall b, f64_wf b = true -> f64_finite b = true ->
-    num_key lossy false (fmt_f64 b) = key_of_f64 b.
+    num_key false (fmt_f64 b) = key_of_f64 b.
 
   Notation tser := (Serde.tser fmt_f64 fmt_f32).
-  Notation shape := (shape_of lossy false).
+  Notation shape := (shape_of false).
   Notation shape_sj := (shape_of_sj false).
 
   Definition SH (d : tsd) : Prop :=
@@ -197,7 +196,7 @@ Section Shape.
       cbn [finite_floats known_class no_f32] in Hf, Hk, Hn; try discriminate.
     - (* bool *) exists (VBool b), (TjBool b). repeat split; reflexivity.
     - (* int *) split_and Ht. exists (VNum (z_dec z)), (TjNum (sj_int z)). repeat split; try reflexivity.
-      cbn [shape_of shape_of_sj]. f_equal. unfold num_key. rewrite (num_event_int lossy k z Ht0).
+      cbn [shape_of shape_of_sj]. f_equal. unfold num_key. rewrite (num_event_int k z Ht0).
       unfold sj_int. destruct (Z.leb_spec 0 z), (Z.ltb_spec z 0); try lia; reflexivity.
     - (* f64 *) exists (VNum (fmt_f64 b)), (TjNum (SJFloat b)). cbn [Serde.tser ser_sj]. rewrite Hf.
       repeat split; try reflexivity. cbn [shape_of shape_of_sj]. rewrite (Hk64 b Ht Hf). reflexivity.
@@ -259,8 +258,7 @@ Section Shape.
       repeat split; try reflexivity. cbn. rewrite Hs. reflexivity.
     - (* tuple variant *) split_and Ht. destruct (assoc n E) as [[]|]; try discriminate.
       destruct (assoc v vs) as [[]|]; try discriminate.
-      destruct l as [|x l]; [discriminate|].
-      destruct (list_sh (x :: l) H (all2b_typed E _ l0 Ht0) Hf Hk Hn) as (ws & js & Hws & Hjs & Hs).
+      destruct (list_sh l H (all2b_typed E _ l0 Ht0) Hf Hk Hn) as (ws & js & Hws & Hjs & Hs).
       exists (VObj [(v, VArr ws)]), (TjObj [(v, TjArr js)]). cbn [Serde.tser ser_sj]. rewrite Hws, Hjs.
       repeat split; try reflexivity. cbn. f_equal. f_equal. f_equal. f_equal. exact Hs.
     - (* struct variant *) split_and Ht. destruct (assoc n E) as [[]|]; try discriminate.
